@@ -4,6 +4,7 @@ Facts are produced by /verif/driver (a rustc_private RUSTC_WORKSPACE_WRAPPER) un
 `cargo +nightly check --offline --lib`.  Cache key = sha256 of the repo sources, the
 feature set and the driver binary, so an edited tree is always re-analysed.
 """
+import fcntl
 import hashlib
 import json
 import os
@@ -85,12 +86,25 @@ def build_facts(features=FULL, repo=None, crates="repe", quiet=True, target_dir=
     out = os.path.join(fdir, key + ".json")
     if os.path.exists(out):
         return out, {"cached": True, "key": key, "features": list(features)}
+    target = target_dir or os.path.join(CACHE, "target")
+    os.makedirs(target, exist_ok=True)
+    # Checks may run in parallel (one process per property): builds on one cargo target directory are
+    # serialised with an advisory lock, and a process that waited re-checks the cache first.
+    with open(os.path.join(target, ".verif-build.lock"), "w") as lk:
+        fcntl.flock(lk, fcntl.LOCK_EX)
+        try:
+            if os.path.exists(out):
+                return out, {"cached": True, "key": key, "features": list(features), "waited_for_peer_build": True}
+            return _build_locked(features, repo, crates, target, out, key, fdir)
+        finally:
+            fcntl.flock(lk, fcntl.LOCK_UN)
+
+
+def _build_locked(features, repo, crates, target, out, key, fdir):
     t0 = time.time()
     nonce = uuid.uuid4().hex
     scratch = os.path.join(CACHE, "scratch", nonce)
     os.makedirs(scratch)
-    target = target_dir or os.path.join(CACHE, "target")
-    os.makedirs(target, exist_ok=True)
     # cargo's freshness cache would skip the wrapper: drop the fingerprints of the dumped crates.
     fp = os.path.join(target, "debug", ".fingerprint")
     if os.path.isdir(fp):
@@ -130,13 +144,16 @@ def build_facts(features=FULL, repo=None, crates="repe", quiet=True, target_dir=
         raise SystemExit("FACTS-STALE: nonce mismatch")
     os.replace(src, out)
     shutil.rmtree(scratch, ignore_errors=True)
-    _prune(fdir, keep=40)
+    _prune(fdir, keep=120)
     return out, {"cached": False, "key": key, "features": list(features), "build_s": round(time.time() - t0, 2)}
 
 
 def _prune(fdir, keep):
     fs = sorted((os.path.getmtime(os.path.join(fdir, f)), f) for f in os.listdir(fdir))
-    for _, f in fs[:-keep]:
+    now = time.time()
+    for m, f in fs[:-keep]:
+        if now - m < 3 * 3600:   # never pull a file from under a concurrently running check
+            continue
         try:
             os.remove(os.path.join(fdir, f))
         except OSError:
